@@ -8,6 +8,9 @@ for mp in sorted(glob.glob("/verif/seeded/*/meta.json")):
     m = json.load(open(mp))
     if sel and not any(m["id"].startswith(s) for s in sel):
         continue
+    if m.get("expected") == "not-detected-by-design":
+        print(m["id"], "skipped:", m.get("judgement", "")[:120], flush=True)
+        continue
     p = subprocess.run(["/verif/tools/seed.py", "detect", m["id"], m["breaks_property"]], stdout=subprocess.PIPE, stderr=subprocess.STDOUT, text=True)
     first = p.stdout.strip().splitlines()[0] if p.stdout.strip() else "no output"
     print(first, flush=True)
